@@ -262,6 +262,11 @@ def _shard_entry(args):
     return acc
 
 
+def _margins():
+    from .props import _w
+    return {k: {"observed": o, "required": n} for k, (o, n) in sorted(_w.MARGINS.items())}
+
+
 def run_check(prop, modname, tier, seed, floors_fn, rule, level_assumptions, extra=None,
               post_fn=None, nshards=None):
     """Generic driver: build, fan out, merge, decide, write evidence, print verdict, exit."""
@@ -306,6 +311,7 @@ def run_check(prop, modname, tier, seed, floors_fn, rule, level_assumptions, ext
         "known_finding_samples": acc.known_samples,
         "shards": nshards,
         "floors_missed": floor_msgs,
+        "count_floors_observed_vs_required": _margins(),
         "harness_faults": acc.faults[:5],
         "build_s": round(build_s, 1),
         "adapter_helper_groups_dropped": dropped_groups(),
@@ -340,6 +346,9 @@ def run_check(prop, modname, tier, seed, floors_fn, rule, level_assumptions, ext
           % (prop, tier, seed, acc.evaluations, len(acc.classes), wall, build_s))
     for k, v in sorted(acc.counters.items()):
         print("  %-46s %d" % (k, v))
+    tight = ["%s %d/%d" % (k, v["observed"], v["required"]) for k, v in _margins().items() if v["observed"] < 1.5 * v["required"]]
+    if tight:
+        print("  floors within 1.5x: " + ", ".join(tight))
     if dropped_groups():
         print("  NOTE: the adapter could only be built without the direct helper calls %s (their signatures changed in /repo); "
               "function-level legs using them were skipped" % dropped_groups())
